@@ -4,7 +4,7 @@
    62 (s)               s.splitlines()                 (the CPython oracle instance used by the failed-block comment)
    63 (template n)      template.format(n=n)           restricted to {n} {{ }} templates; anything else: skip *)
 From Coq Require Import List NArith ZArith Bool.
-From BP Require Import Base.Chars Base.Sx Model.Blocks Run.Codec Model.Writer.
+From BP Require Import Base.Chars Base.Sx Model.Blocks Run.Codec Model.Writer Model.FormatSetters.
 Import ListNotations.
 Local Open Scope Z_scope.
 
@@ -50,6 +50,16 @@ Definition run_writer (op : Z) (args : list sx) : sx :=
                 | Some t', Some n' => match expand t' (dec_of_N n') with Some s => r_ok (sstr s) | None => r_skip end
                 | _, _ => sx_err
                 end
+    | _ => sx_err
+    end
+  else if op =? 64 then
+    (* 64 (arg)   fmt.value_column = arg on a fresh BibtexFormat: (raised?, column afterwards) *)
+    match args with
+    | [a] => match dec_value a with
+             | Some a' => let (f, raised) := assign_value_column default_fmt a' in
+                          r_ok (L [sbool raised; match f_column f with ColN n => L [snat n] | ColAuto => L [] end])
+             | None => sx_err
+             end
     | _ => sx_err
     end
   else sx_err.
